@@ -8,6 +8,7 @@
      listans  answers formats of ListGrader (list, tuple of lists) and SingleListGrader (list, delimited string, dictionary
               with a list, tuple of those), entries in every item-grader format, with the canonical form
      lgroup   ListGrader: ordered x subgraders x grouping x number of answers x tuple-of-lists
+     lnest    two-level ListGraders: every inner ordered x subgraders x grouping x handed-down answers, under both outer forms
      nested   chains of nested SingleListGraders over three delimiters
      interval IntervalGrader answers: string / list form x brackets x number of bounds x configured brackets
      square   SquareMatrices: symmetry x traceless x determinant x complex x dimension *)
@@ -150,6 +151,13 @@ LGCases(ordered, subs) ==
   [kind : {"lgroup"}, ordered : {ordered}, subs : {subs}, one : {subs \in SubsOne}, grouping : Groupings,
    nans : 0..3, ntup : IF Big THEN 0..2 ELSE 0..1]
 
+(* ---------------------------------------------------------------------- lnest *)
+InnerGroupings == UNION {[1..n -> 1..2] : n \in 0..(IF Big THEN 4 ELSE 3)}
+LNestCases(ordered, subs) ==
+  [kind : {"lnest"},
+   inner : [ordered : {ordered}, subs : {subs}, one : {subs \in SubsOne}, grouping : InnerGroupings],
+   nin : IF Big THEN 1..3 ELSE 2..3, oform : {"single", "pair"}, oordered : BOOLEAN, ngroups : IF Big THEN 2..3 ELSE {2}]
+
 (* ---------------------------------------------------------------------- nested *)
 Delims == {"comma", "semi", "colon"}
 Chains == UNION {[1..n -> Delims] : n \in 1..(IF Big THEN 4 ELSE 3)}
@@ -173,6 +181,7 @@ Seeds ==
     [] Part = "answers" -> {[kind |-> "seed", cls |-> cls, ctx |-> x] : cls \in AnswerClasses, x \in DOMAIN Contexts}
     [] Part = "listans" -> {[kind |-> "seed", cls |-> cls] : cls \in {"ListGrader", "SingleListGrader"}}
     [] Part = "lgroup" -> {[kind |-> "seed", ordered |-> o, subs |-> s] : o \in BOOLEAN, s \in SubsOne \cup SubsMany}
+    [] Part = "lnest" -> {[kind |-> "seed", ordered |-> o, subs |-> s] : o \in BOOLEAN, s \in SubsOne \cup SubsMany}
     [] Part = "nested" -> {[kind |-> "seed", n |-> n] : n \in 1..(IF Big THEN 4 ELSE 3)}
     [] Part = "square" -> {[kind |-> "seed", symmetry |-> s] : s \in SquareSyms}
     [] Part = "interval" -> {[kind |-> "seed", form |-> f] : f \in {"string", "list"}}
@@ -191,6 +200,8 @@ Next ==
                               /\ out' = ListAnswersOut(c'.cls, c'.la)
        [] Part = "lgroup" -> /\ c' \in LGCases(c.ordered, c.subs)
                              /\ out' = [expect |-> LGExpect(c')]
+       [] Part = "lnest" -> /\ c' \in LNestCases(c.ordered, c.subs)
+                            /\ out' = [expect |-> LNestExpect(c')]
        [] Part = "nested" -> /\ c' \in [kind : {"nested"}, chain : [1..c.n -> Delims]]
                              /\ out' = [expect |-> NestedExpect(c'.chain)]
        [] Part = "square" -> /\ c' \in SquareSpace(c.symmetry)
@@ -291,6 +302,13 @@ LawLGUnorderedMany == (IsCase /\ c.kind = "lgroup" /\ ~c.one /\ ~c.ordered /\ c.
 LawLGContiguous == (IsCase /\ c.kind = "lgroup" /\ out.expect = "accept" /\ c.grouping # <<>>) =>
   RangeOf(c.grouping) = 1..Cardinality(RangeOf(c.grouping))
 LawLGReversal == (IsCase /\ c.kind = "lgroup") => LGExpect([c EXCEPT !.grouping = Rev(c.grouping)]) = out.expect
+\* nested ListGraders: an inner unordered grader with a list of subgraders is never accepted once it is handed answers; an
+\* accepted nest is accepted level by level; making the inner grader ordered never turns an accepted nest into a refused one
+LawLNest == (IsCase /\ c.kind = "lnest") =>
+  /\ (~c.inner.one /\ ~c.inner.ordered /\ c.nin > 1) => out.expect = "reject"
+  /\ out.expect = "accept" => LGExpect(InnerCase(c)) = "accept" /\ LGExpect(OuterCase(c)) = "accept"
+  /\ (out.expect = "accept" /\ ~c.inner.ordered) => LNestExpect([c EXCEPT !.inner.ordered = TRUE]) = "accept"
+  /\ (c.oform = "pair" /\ ~c.oordered) => out.expect = "reject"
 \* nested: acceptance iff the chain is injective; a prefix of an accepted chain is accepted
 LawNestedInjective == (IsCase /\ c.kind = "nested") =>
   ((out.expect = "accept") <=> Cardinality(RangeOf(c.chain)) = Len(c.chain))
